@@ -402,13 +402,15 @@ def stationary (t : DTables) : Bool :=
 def DTables.positive (t : DTables) : Bool :=
   t.finite && (t.P.all (· > 0)) && (t.F.all (· > 0)) && (t.E.all (· > 0))
 
-/-- the recorded double-range findings of the derivative recursions: the rescaled class divides by the square /
-cube of every scale factor (NaN or ±inf once one is below 1e-140 / 1e-95); the log-sum class divides by every
+/-- the recorded double-range finding of the log-sum derivative recursions: the class divides by every
 emission probability and takes the logarithm of every transition / equilibrium entry (NaN when one is 0 or tiny) -/
-def derivRangeClause (o : Obj) (order : Nat) : Option String :=
+def derivRangeClause (o : Obj) (order : Nat) (illCond : Bool := false) : Option String :=
   let t := o.tab
+  if illCond then some "FAIL:rescaled_derivative_range" else
   match o.core with
-  | .resc _ => if !rangeOkAt (if order == 1 then 1e-140 else 1e-95) t o.bps then some "FAIL:rescaled_derivative_range" else none
+  -- (as repaired the rescaled recursions divide once by each scale factor: no range of their own; what remains is the
+  -- underflow of the forward recursion itself, finding C13-rescaled-underflow)
+  | .resc _ => if underflowed t o.bps then some "FAIL:rescaled_underflow" else none
   | .log _ => if !t.positive || !t.E.all (· ≥ (if order == 1 then 1e-140 else 1e-95)) then some "FAIL:logsum_derivative_range" else none
   | .low _ => none
 
@@ -458,7 +460,21 @@ def derivVerdict (o : Obj) (impl : List String) (var : String) (order : Nat) : S
           -- the answer itself must be a double: the second derivative is the square of the first
           if !(Float.abs (ratToFloat d1) < 1e150) then "-" else
           if Float.abs (x - want) ≤ 1e-7 * (if Float.abs want > 1.0 then Float.abs want else 1.0) then "ok"
-          else match derivRangeClause o order with
+          else
+            -- conditioning of the rescaled sums: the derivative is accumulated as Σ_i ds_i/c_i (order 1) resp.
+            -- Σ_i [d2s_i/c_i − (ds_i/c_i)²] (order 2); when the terms exceed the result by more than 1e6 times the
+            -- tolerance the sum has no correct digit left (recorded finding C13-rescaled-derivative-range)
+            let ill := match o.core with
+              | .resc _ =>
+                let m := t.model
+                let fw := rescForward m.p m.e0 (mkSites m.es o.bps)
+                let de := m.dE (t.pre ++ var)
+                let dfw := rescDForward m.p m.e0 m.es de.1 de.2 o.bps fw
+                let cond := (dfw.dScales.zip fw.scales).foldl (fun a (ds, c) =>
+                  let q := Float.abs (ds / c); a + (if order == 1 then q else q * q)) 0.0
+                !(cond * 1e-13 ≤ 1e-7 * (if Float.abs want > 1.0 then Float.abs want else 1.0))
+              | _ => false
+            match derivRangeClause o order ill with
             | some c => c
             | none => if order == 1 then "FAIL:derivative1" else "FAIL:derivative2"
   | _ => "FAIL:parse"
